@@ -5,9 +5,14 @@ package zzverif
 // comparison between the generated tree and the real parse tree.
 
 import (
+	"encoding/json"
 	"fmt"
+	"os"
+	"path/filepath"
 	"strings"
 	"testing"
+
+	"pgregory.net/rapid"
 
 	"github.com/antlr4-go/antlr/v4"
 	"github.com/verily-src/fhirpath-go/fhirpath/internal/compile"
@@ -269,4 +274,26 @@ func TestC11(t *testing.T) {
 		"a case is one generated expression tree (typed-ish generator over all 13 precedence levels, every table function, parenthesised sub-terms, root type names in every position; 8% get an unsupported operator | in contains ~ !~) rendered minimally parenthesised per the N1 precedence table, fully parenthesised and decorated with gaps from {' ','\\n','\\t','\\r\\n','/* c */','/**/','// c\\n'}; oracles: the real parse tree of every rendering equals the generated tree, all renderings compile alike and evaluate to the same outcome on the fixture Patient + variables, String() is the source, a trailing token makes Compile fail; non-trivial = compiled, minimal ≠ full rendering, and the tree mixes ≥ 2 binary/type levels or has a polarity/invocation/indexer applied to a compound operand; distinct = FNV-64 of (min, decorated)",
 		"the N1 precedence table = alternative order of `expression` in fhirpath.g4; all binary operators left-associative")
 	runProperty(t, r, Stage[c11Case]{Name: "trees", Gen: c11Gen, Run: c11Run, N: pick(6000, 150000)})
+}
+
+// FuzzC11: the tree generator driven by go-fuzz bytes (rapid.MakeFuzz); thorough tier only.
+func FuzzC11(f *testing.F) {
+	f.Add([]byte{})
+	f.Add([]byte("seed-1"))
+	f.Fuzz(rapid.MakeFuzz(func(rt *rapid.T) {
+		c := c11Gen(rapidSrc{rt})
+		r := newRec("C11", "native fuzz")
+		ctx := &Ctx{r: r, stage: "trees", c: c}
+		c11Run(ctx, c)
+		if ctx.failed {
+			for sig, v := range r.violations {
+				body := map[string]any{"property": "C11", "stage": "trees", "sig": sig, "detail": v.Detail, "case": jsonable(c)}
+				b, _ := json.MarshalIndent(body, "", " ")
+				if dir := os.Getenv("VERIF_FUZZ_OUT"); dir != "" {
+					os.WriteFile(filepath.Join(dir, fmt.Sprintf("fuzzfail-%x.json", hash64(string(b)))), b, 0o644)
+				}
+				rt.Fatalf("violation: %s", sig)
+			}
+		}
+	}))
 }
